@@ -1,2 +1,1161 @@
 (* Lemmas behind Props/C04.v. *)
-From TT Require Import Lib.Base Model.Result Spec.C04 Corr.C04.
+From Coq Require Import String.
+From TT Require Import Lib.Base Gen.Resulttabs Model.Result Spec.C04 Corr.C04.
+
+(* ====================================================================== *)
+(* 0. facts about the tables read from the live code                      *)
+(* ====================================================================== *)
+(* StreamFailFast fires exactly on the status words of error / failure / unexpected success *)
+Lemma table_failfast k : in_words (status_of k) failfast_statuses = bad k.
+Proof. destruct k; reflexivity. Qed.
+
+(* ====================================================================== *)
+(* 1. the underlying results of a stack                                   *)
+(* ====================================================================== *)
+Section node_ind'.
+  Variable P : node -> Prop.
+  Hypothesis HR : forall r, P (NTR r).
+  Hypothesis HS : forall e, P (NE2S e).
+  Hypothesis HM : forall l, Forall (fun ec => P (snd ec)) l -> P (NMulti l).
+  Hypothesis HF : forall ff e x, P x -> P (NTFR ff e x).
+  Hypothesis HO : forall e x, P x -> P (NE2O e x).
+  Hypothesis HD : forall ff x, P x -> P (NDeco ff x).
+  Fixpoint node_ind' (n : node) : P n :=
+    let fix go (l : list (bool * node)) : Forall (fun ec => P (snd ec)) l :=
+      match l with [] => Forall_nil _ | ec :: r => Forall_cons ec (node_ind' (snd ec)) (go r) end in
+    match n with
+    | NTR r => HR r | NE2S e => HS e | NMulti l => HM l (go l)
+    | NTFR ff e x => HF ff e x (node_ind' x) | NE2O e x => HO e x (node_ind' x)
+    | NDeco ff x => HD ff x (node_ind' x)
+    end.
+End node_ind'.
+
+Inductive leaf := LTR (r : tr) | LE2S (e : e2s).
+Definition leaf_stopped (l : leaf) : bool := match l with LTR r => tr_stopped r | LE2S e => e_stopped e end.
+Definition leaf_stop (l : leaf) : leaf := match l with LTR r => LTR (tr_stop r) | LE2S e => LE2S (e2s_stop e) end.
+Definition leaf_ok (l : leaf) : bool := match l with LTR r => tr_ok r | LE2S e => e2s_ok e end.
+Definition leaf_out (l : leaf) : list summary := match l with LTR r => tr_out r | LE2S _ => [] end.
+Definition leaf_ff (l : leaf) : bool := match l with LTR r => tr_ff r | LE2S e => e_ff e end.
+
+Fixpoint lvs (n : node) : list leaf :=
+  match n with
+  | NTR r => [LTR r]
+  | NE2S e => [LE2S e]
+  | NMulti l => flat_map (fun ec => lvs (snd ec)) l
+  | NTFR _ _ x | NE2O _ x | NDeco _ x => lvs x
+  end.
+
+Lemma map_flat_map {A B C} (f : B -> C) (g : A -> list B) l :
+  map f (flat_map g l) = flat_map (fun x => map f (g x)) l.
+Proof. induction l as [|x r IH]; simpl; [reflexivity|]. rewrite map_app, IH. reflexivity. Qed.
+
+Lemma flat_map_ext_F {A B} (f g : A -> list B) l :
+  Forall (fun x => f x = g x) l -> flat_map f l = flat_map g l.
+Proof. induction 1 as [|x r H _ IH]; simpl; [reflexivity|]. rewrite H, IH. reflexivity. Qed.
+
+Lemma leaf_stops_lvs n : leaf_stops n = map leaf_stopped (lvs n).
+Proof.
+  induction n as [r|e|l IH|ff e x IH|e x IH|ff x IH] using node_ind'; simpl; try reflexivity; try exact IH.
+  rewrite map_flat_map. apply flat_map_ext_F. exact IH.
+Qed.
+
+Lemma leaf_outs_lvs n : leaf_outs n = map leaf_out (lvs n).
+Proof.
+  induction n as [r|e|l IH|ff e x IH|e x IH|ff x IH] using node_ind'; simpl; try reflexivity; try exact IH.
+  rewrite map_flat_map. apply flat_map_ext_F. exact IH.
+Qed.
+
+Lemma forallb_flat_map {A B} (p : B -> bool) (g : A -> list B) l :
+  forallb p (flat_map g l) = forallb (fun x => forallb p (g x)) l.
+Proof. induction l as [|x r IH]; simpl; [reflexivity|]. rewrite forallb_app, IH. reflexivity. Qed.
+Lemma existsb_flat_map {A B} (p : B -> bool) (g : A -> list B) l :
+  existsb p (flat_map g l) = existsb (fun x => existsb p (g x)) l.
+Proof. induction l as [|x r IH]; simpl; [reflexivity|]. rewrite existsb_app, IH. reflexivity. Qed.
+Lemma forallb_ext_F {A} (p q : A -> bool) l : Forall (fun x => p x = q x) l -> forallb p l = forallb q l.
+Proof. induction 1 as [|x r H _ IH]; simpl; [reflexivity|]. rewrite H, IH. reflexivity. Qed.
+Lemma existsb_ext_F {A} (p q : A -> bool) l : Forall (fun x => p x = q x) l -> existsb p l = existsb q l.
+Proof. induction 1 as [|x r H _ IH]; simpl; [reflexivity|]. rewrite H, IH. reflexivity. Qed.
+
+Lemma was_ok_lvs n : was_ok n = forallb leaf_ok (lvs n).
+Proof.
+  induction n as [r|e|l IH|ff e x IH|e x IH|ff x IH] using node_ind'; simpl;
+    try (rewrite andb_true_r; reflexivity); try exact IH.
+  rewrite forallb_flat_map. apply forallb_ext_F. exact IH.
+Qed.
+
+Lemma should_stop_lvs n : should_stop n = existsb leaf_stopped (lvs n).
+Proof.
+  induction n as [r|e|l IH|ff e x IH|e x IH|ff x IH] using node_ind'; simpl;
+    try (rewrite orb_false_r; reflexivity); try exact IH.
+  rewrite existsb_flat_map. apply existsb_ext_F. exact IH.
+Qed.
+
+Lemma existsb_map {A B} (p : B -> bool) (f : A -> B) l : existsb p (map f l) = existsb (fun x => p (f x)) l.
+Proof. induction l as [|x r IH]; simpl; [reflexivity|]. rewrite IH. reflexivity. Qed.
+
+(* the outermost object's shouldStop is the disjunction over the underlying results *)
+Lemma should_stop_any n : should_stop n = existsb (fun b => b) (leaf_stops n).
+Proof. rewrite should_stop_lvs, leaf_stops_lvs, existsb_map. reflexivity. Qed.
+
+Lemma lvs_stop n : lvs (stop n) = map leaf_stop (lvs n).
+Proof.
+  induction n as [r|e|l IH|ff e x IH|e x IH|ff x IH] using node_ind'; simpl; try reflexivity; try exact IH.
+  rewrite map_flat_map. induction IH as [|ec r H _ IHr]; simpl; [reflexivity|]. rewrite H, IHr. reflexivity.
+Qed.
+
+(* ====================================================================== *)
+(* 2. the static part of a stack (who holds which failfast) never changes *)
+(* ====================================================================== *)
+Inductive fr :=
+| FL (ff : bool)
+| FM (l : list (bool * fr))
+| FT (ff e : bool) (x : fr)
+| FO (e : bool) (x : fr)
+| FD (ff : option bool) (x : fr).
+
+Fixpoint frame (n : node) : fr :=
+  match n with
+  | NTR r => FL (tr_ff r)
+  | NE2S e => FL (e_ff e)
+  | NMulti l => FM (map (fun ec => (fst ec, frame (snd ec))) l)
+  | NTFR ff e x => FT ff e (frame x)
+  | NE2O e x => FO e (frame x)
+  | NDeco ff x => FD ff (frame x)
+  end.
+
+Definition fhas (f : fr) : bool := match f with FD None _ => false | _ => true end.
+Fixpoint fget (f : fr) : bool :=
+  match f with
+  | FL ff => ff
+  | FM l => match l with ec :: _ => if fhas (snd ec) then fget (snd ec) else fst ec | [] => false end
+  | FT ff _ _ => ff
+  | FO e x => if fhas x then fget x else e
+  | FD (Some b) _ => b
+  | FD None _ => false
+  end.
+Definition fe2o_get (ec : bool * fr) : bool := if fhas (snd ec) then fget (snd ec) else fst ec.
+
+Lemma has_ff_frame n : has_ff n = fhas (frame n).
+Proof. destruct n as [r|e|l|ff e x|e x|[b|] x]; reflexivity. Qed.
+
+Lemma get_ff_frame n : get_ff n = fget (frame n).
+Proof.
+  induction n as [r|e|l IH|ff e x IH|e x IH|ff x IH] using node_ind'; simpl; try reflexivity.
+  - destruct l as [|ec r]; simpl; [reflexivity|]. inversion IH; subst.
+    rewrite <- has_ff_frame. destruct (has_ff (snd ec)); [assumption|reflexivity].
+  - rewrite <- has_ff_frame, IH. reflexivity.
+Qed.
+
+Lemma e2o_get_frame ec : e2o_get ec = fe2o_get (fst ec, frame (snd ec)).
+Proof. unfold e2o_get, fe2o_get; simpl. rewrite <- has_ff_frame, <- get_ff_frame. reflexivity. Qed.
+
+Lemma map_ext_F {A B} (f g : A -> B) l : Forall (fun x => f x = g x) l -> map f l = map g l.
+Proof. induction 1 as [|x r H _ IH]; simpl; [reflexivity|]. rewrite H, IH. reflexivity. Qed.
+
+Lemma frame_stop n : frame (stop n) = frame n.
+Proof.
+  induction n as [r|e|l IH|ff e x IH|e x IH|ff x IH] using node_ind'; simpl; try reflexivity;
+    try (rewrite IH; reflexivity).
+  f_equal. rewrite map_map. apply map_ext_F. eapply Forall_impl; [|exact IH].
+  intros ec H. simpl. rewrite H. reflexivity.
+Qed.
+
+Lemma tr_ff_step r o : tr_ff (tr_step r o) = tr_ff r.
+Proof.
+  destruct o; simpl; try reflexivity; unfold tr_outcome; simpl;
+    try (destruct (bad k && tr_ff r); reflexivity).
+  destruct (tr_text r); reflexivity.
+Qed.
+Lemma e_ff_step e o : e_ff (e2s_step e o) = e_ff e.
+Proof. destruct o; reflexivity. Qed.
+
+Lemma frame_step n : forall o, frame (step n o) = frame n.
+Proof.
+  induction n as [r|e|l IH|ff e x IH|e x IH|ff x IH] using node_ind'; intro o; simpl.
+  - rewrite tr_ff_step. reflexivity.
+  - rewrite e_ff_step. reflexivity.
+  - f_equal. rewrite map_map. apply map_ext_F. eapply Forall_impl; [|exact IH].
+    intros ec H. simpl.
+    destruct (is_bad_call o && _); simpl; rewrite ?frame_stop, H; reflexivity.
+  - destruct o; simpl; try reflexivity;
+      try match goal with |- context [if ?c then _ else _] => destruct c end;
+      rewrite ?frame_stop, IH; reflexivity.
+  - destruct (is_bad_call o && _); rewrite ?frame_stop, IH; reflexivity.
+  - rewrite IH. reflexivity.
+Qed.
+
+Lemma frame_stop_at p : forall n, frame (stop_at p n) = frame n.
+Proof.
+  induction p as [|j q IHq]; intro n; [apply frame_stop|].
+  destruct n as [r|e|l|ff e x|e x|ff x]; simpl; try reflexivity;
+    try (destruct j; simpl; rewrite ?IHq; reflexivity).
+  f_equal. revert j. induction l as [|ec r IHl]; intro j; [reflexivity|].
+  destruct j; simpl; [rewrite IHq; reflexivity|]. rewrite IHl. reflexivity.
+Qed.
+
+Lemma frame_do_op n o : frame (do_op n o) = frame n.
+Proof. destruct o; simpl; try apply frame_step. apply frame_stop_at. Qed.
+
+(* ====================================================================== *)
+(* 3. one call, seen from every underlying result                         *)
+(* ====================================================================== *)
+Section fr_ind'.
+  Variable P : fr -> Prop.
+  Hypothesis HL : forall ff, P (FL ff).
+  Hypothesis HM : forall l, Forall (fun ec => P (snd ec)) l -> P (FM l).
+  Hypothesis HT : forall ff e x, P x -> P (FT ff e x).
+  Hypothesis HO : forall e x, P x -> P (FO e x).
+  Hypothesis HD : forall ff x, P x -> P (FD ff x).
+  Fixpoint fr_ind' (f : fr) : P f :=
+    let fix go (l : list (bool * fr)) : Forall (fun ec => P (snd ec)) l :=
+      match l with [] => Forall_nil _ | ec :: r => Forall_cons ec (fr_ind' (snd ec)) (go r) end in
+    match f with
+    | FL ff => HL ff | FM l => HM l (go l) | FT ff e x => HT ff e x (fr_ind' x)
+    | FO e x => HO e x (fr_ind' x) | FD ff x => HD ff x (fr_ind' x)
+    end.
+End fr_ind'.
+
+(* per underlying result: (it sits below a ThreadsafeForwardingResult, the stack stops it at a bad outcome) *)
+Fixpoint finfo (cov u : bool) (f : fr) : list (bool * bool) :=
+  match f with
+  | FL ff => [(u, cov || ff)]
+  | FM l => flat_map (fun ec => finfo (cov || fe2o_get ec) u (snd ec)) l
+  | FT _ e x => finfo (cov || fe2o_get (e, x)) true x
+  | FO e x => finfo (cov || fe2o_get (e, x)) u x
+  | FD _ x => finfo cov u x
+  end.
+
+Lemma will_stop_finfo n : forall cov u, will_stop cov n = map snd (finfo cov u (frame n)).
+Proof.
+  induction n as [r|e|l IH|ff e x IH|e x IH|ff x IH] using node_ind'; intros cov u; simpl; try reflexivity;
+    try apply IH.
+  - induction IH as [|ec r H _ IHr]; simpl; [reflexivity|]. rewrite map_app, <- IHr. f_equal.
+    rewrite (e2o_get_frame ec). apply H.
+  - rewrite (e2o_get_frame (e, x)). apply IH.
+  - rewrite (e2o_get_frame (e, x)). apply IH.
+Qed.
+
+Lemma finfo_length n : forall cov u, length (finfo cov u (frame n)) = length (lvs n).
+Proof.
+  induction n as [r|e|l IH|ff e x IH|e x IH|ff x IH] using node_ind'; intros cov u; simpl; try reflexivity;
+    try apply IH.
+  induction IH as [|ec r H _ IHr]; simpl; [reflexivity|]. rewrite !app_length, H, IHr. reflexivity.
+Qed.
+
+Lemma finfo_under f : forall cov u, finfo cov true f = map (fun uw => (true, snd uw)) (finfo cov u f).
+Proof.
+  induction f as [ff|l IH|ff e x IH|e x IH|ff x IH] using fr_ind'; intros cov u; simpl; try reflexivity;
+    try apply IH.
+  - rewrite map_flat_map. apply flat_map_ext_F. eapply Forall_impl; [|exact IH]. intros ec H. apply H.
+Qed.
+
+Lemma finfo_cover f : forall cov u, finfo true u f = map (fun uw => (fst uw, true)) (finfo cov u f).
+Proof.
+  induction f as [ff|l IH|ff e x IH|e x IH|ff x IH] using fr_ind'; intros cov u; simpl; try reflexivity;
+    try apply IH.
+  rewrite map_flat_map. apply flat_map_ext_F. eapply Forall_impl; [|exact IH]. intros ec H. apply H.
+Qed.
+
+Definition map2 {A B C} (f : A -> B -> C) (a : list A) (b : list B) : list C :=
+  map (fun p => f (fst p) (snd p)) (combine a b).
+
+Lemma map2_app {A B C} (f : A -> B -> C) a1 a2 b1 b2 : length a1 = length b1 ->
+  map2 f (a1 ++ a2) (b1 ++ b2) = map2 f a1 b1 ++ map2 f a2 b2.
+Proof.
+  unfold map2. revert b1. induction a1 as [|x a1 IH]; intros [|y b1] H; simpl in *; try discriminate;
+    [reflexivity|]. rewrite IH; [reflexivity|]. injection H as H; exact H.
+Qed.
+
+Lemma map2_ext {A B C} (f g : A -> B -> C) a b :
+  (forall x y, In (x, y) (combine a b) -> f x y = g x y) -> map2 f a b = map2 g a b.
+Proof. intro H. unfold map2. apply map_ext_in. intros [x y] Hin. simpl. apply H. exact Hin. Qed.
+
+Lemma map2_map_l {A A' B C} (f : A' -> B -> C) (g : A -> A') a b :
+  map2 f (map g a) b = map2 (fun x y => f (g x) y) a b.
+Proof.
+  unfold map2. revert b. induction a as [|x a IH]; intros [|y b]; simpl; try reflexivity. rewrite IH. reflexivity.
+Qed.
+
+Lemma map2_snd {A B} (a : list A) (b : list B) : length a = length b -> map2 (fun _ y => y) a b = b.
+Proof.
+  unfold map2. revert b. induction a as [|x a IH]; intros [|y b] H; simpl in *; try discriminate; [reflexivity|].
+  rewrite IH; [reflexivity|]. injection H as H; exact H.
+Qed.
+
+Lemma map_map2 {A B C D} (g : C -> D) (f : A -> B -> C) a b : map g (map2 f a b) = map2 (fun x y => g (f x y)) a b.
+Proof. unfold map2. rewrite map_map. reflexivity. Qed.
+
+(* what reaches a result below a ThreadsafeForwardingResult *)
+Definition tfr_conv (o : op) : option op :=
+  match o with
+  | Outcome k t => Some (Block k t)
+  | StartTest _ | StopTest _ => None
+  | _ => Some o
+  end.
+Definition leaf_step (l : leaf) (o : op) : leaf :=
+  match l with LTR r => LTR (tr_step r o) | LE2S e => LE2S (e2s_step e o) end.
+Definition leaf_deliver (u : bool) (l : leaf) (o : op) : leaf :=
+  match (if u then tfr_conv o else Some o) with Some m => leaf_step l m | None => l end.
+(* u: below a forwarder; w: stopped by the stack at a bad outcome *)
+Definition leaf_evolve (o : op) (uw : bool * bool) (l : leaf) : leaf :=
+  let l' := leaf_deliver (fst uw) l o in
+  if is_bad_call o && snd uw then leaf_stop l' else l'.
+
+Lemma leaf_stop_idem l : leaf_stop (leaf_stop l) = leaf_stop l.
+Proof. destruct l; reflexivity. Qed.
+
+Lemma tr_self_stop r o : is_bad_call o = true -> tr_ff r = true -> tr_stop (tr_step r o) = tr_step r o.
+Proof.
+  intros Hb Hf. destruct o; simpl in Hb; try discriminate; simpl; unfold tr_outcome; simpl;
+    rewrite Hb, Hf; reflexivity.
+Qed.
+
+Lemma e2s_self_stop e o : is_bad_call o = true -> e_ff e = true -> e2s_stop (e2s_step e o) = e2s_step e o.
+Proof.
+  intros Hb Hf. destruct o; simpl in Hb; try discriminate;
+    unfold e2s_step, e2s_stop, e2s_outcome, e2s_start_test; cbn [e_errs e_open e_stopped e_ff];
+    rewrite table_failfast, Hb, Hf; cbn [andb]; rewrite orb_true_r; reflexivity.
+Qed.
+
+Definition stops_if (b : bool) (l : list leaf) : list leaf := if b then map leaf_stop l else l.
+
+Lemma stops_if_twice a b l : stops_if a (stops_if b l) = stops_if (a || b) l.
+Proof.
+  unfold stops_if. destruct a, b; simpl; try reflexivity. rewrite map_map.
+  apply map_ext. intro x. apply leaf_stop_idem.
+Qed.
+
+Lemma stops_if_app b l m : stops_if b (l ++ m) = stops_if b l ++ stops_if b m.
+Proof. unfold stops_if. destruct b; [apply map_app|reflexivity]. Qed.
+
+Definition step_law (x : node) (o : op) : Prop :=
+  forall cov, map2 (leaf_evolve o) (finfo cov false (frame x)) (lvs x)
+              = stops_if (is_bad_call o && cov) (lvs (step x o)).
+
+(* an ExtendedToOriginalDecorator (explicit or implied) around x *)
+Lemma cover_step x o e cov : step_law x o ->
+  let x' := step x o in
+  let y := if is_bad_call o && (if has_ff x' then get_ff x' else e) then stop x' else x' in
+  map2 (leaf_evolve o) (finfo (cov || fe2o_get (e, frame x)) false (frame x)) (lvs x)
+  = stops_if (is_bad_call o && cov) (lvs y).
+Proof.
+  intros IH x' y. rewrite IH. fold x'.
+  assert (G : (if has_ff x' then get_ff x' else e) = fe2o_get (e, frame x)).
+  { unfold fe2o_get; simpl. rewrite has_ff_frame, get_ff_frame. unfold x'. rewrite frame_step. reflexivity. }
+  unfold y. rewrite G.
+  assert (L : lvs (if is_bad_call o && fe2o_get (e, frame x) then stop x' else x')
+              = stops_if (is_bad_call o && fe2o_get (e, frame x)) (lvs x')).
+  { destruct (is_bad_call o && fe2o_get (e, frame x)); simpl; [apply lvs_stop|reflexivity]. }
+  rewrite L, stops_if_twice. f_equal.
+  destruct (is_bad_call o), cov, (fe2o_get (e, frame x)); reflexivity.
+Qed.
+
+Lemma evolve_under o m w l u' : tfr_conv o = Some m ->
+  leaf_evolve o (true, w) l = leaf_evolve m (u', w) l.
+Proof.
+  intro H. unfold leaf_evolve, leaf_deliver; simpl. rewrite H.
+  destruct o; simpl in H; try discriminate; injection H as <-; simpl; destruct u'; reflexivity.
+Qed.
+
+Lemma step_ok n : forall o, step_law n o.
+Proof.
+  induction n as [r|e|l IH|ff e x IH|e x IH|ff x IH] using node_ind'; intros o cov.
+  - simpl. unfold map2, leaf_evolve, leaf_deliver, stops_if; simpl.
+    destruct (is_bad_call o) eqn:Eb; simpl; [|reflexivity].
+    destruct cov; simpl; [reflexivity|]. destruct (tr_ff r) eqn:Ef; [|reflexivity].
+    rewrite tr_self_stop; auto.
+  - simpl. unfold map2, leaf_evolve, leaf_deliver, stops_if; simpl.
+    destruct (is_bad_call o) eqn:Eb; simpl; [|reflexivity].
+    destruct cov; simpl; [reflexivity|]. destruct (e_ff e) eqn:Ef; [|reflexivity].
+    rewrite e2s_self_stop; auto.
+  - simpl. induction IH as [|ec r H _ IHr]; [destruct (is_bad_call o && cov); reflexivity|].
+    simpl. rewrite map2_app by apply finfo_length. rewrite stops_if_app, IHr. f_equal.
+    destruct ec as [e c]. simpl.
+    pose proof (cover_step c o e cov (H o)) as C. simpl in C.
+    destruct (is_bad_call o && (if has_ff (step c o) then get_ff (step c o) else e)); exact C.
+  - simpl. rewrite (finfo_under _ _ false), map2_map_l.
+    destruct (tfr_conv o) as [m|] eqn:Ec.
+    + rewrite (map2_ext _ (leaf_evolve m)) by (intros [u' w] y _; apply evolve_under; exact Ec).
+      assert (Hb : is_bad_call m = is_bad_call o)
+        by (destruct o; simpl in Ec; try discriminate; injection Ec as <-; reflexivity).
+      pose proof (cover_step x m e cov (IH m)) as C. simpl in C. rewrite Hb in C.
+      rewrite C. f_equal.
+      destruct o; simpl in Ec; try discriminate; injection Ec as <-; reflexivity.
+    + assert (Hn : is_bad_call o = false) by (destruct o; simpl in Ec; try discriminate; reflexivity).
+      rewrite Hn. simpl.
+      rewrite (map2_ext _ (fun _ y => y)).
+      * rewrite map2_snd by apply finfo_length. destruct o; simpl in Ec; try discriminate; reflexivity.
+      * intros [u' w] y _. unfold leaf_evolve, leaf_deliver; simpl. rewrite Ec, Hn. reflexivity.
+  - simpl. apply (cover_step x o e cov (IH o)).
+  - simpl. apply IH.
+Qed.
+
+(* ====================================================================== *)
+(* 4. stop() on a node of the stack                                       *)
+(* ====================================================================== *)
+Fixpoint fpaths (f : fr) : list (list nat) :=
+  match f with
+  | FL _ => [[]]
+  | FM l => (fix go (j : nat) (l : list (bool * fr)) : list (list nat) :=
+               match l with [] => [] | ec :: r => map (cons j) (fpaths (snd ec)) ++ go (S j) r end) 0 l
+  | FT _ _ x | FO _ x | FD _ x => map (cons 0) (fpaths x)
+  end.
+Fixpoint gpaths (k : nat) (l : list (bool * fr)) : list (list nat) :=
+  match l with [] => [] | ec :: r => map (cons k) (fpaths (snd ec)) ++ gpaths (S k) r end.
+Lemma fpaths_FM l : fpaths (FM l) = gpaths 0 l.
+Proof. simpl. generalize 0. induction l as [|ec r IH]; intro k; simpl; [reflexivity|]. rewrite IH. reflexivity. Qed.
+
+Fixpoint gstop (q : list nat) (l : list (bool * node)) (j : nat) : list (bool * node) :=
+  match l, j with
+  | [], _ => []
+  | ec :: r, 0 => (fst ec, stop_at q (snd ec)) :: r
+  | ec :: r, S j' => ec :: gstop q r j'
+  end.
+Lemma stop_at_Multi j q l : stop_at (j :: q) (NMulti l) = NMulti (gstop q l j).
+Proof. simpl. f_equal. revert j. induction l as [|ec r IH]; intros [|j]; simpl; try reflexivity. rewrite IH. reflexivity. Qed.
+
+Lemma fpaths_length n : length (fpaths (frame n)) = length (lvs n).
+Proof.
+  induction n as [r|e|l IH|ff e x IH|e x IH|ff x IH] using node_ind'; try reflexivity;
+    try (simpl; rewrite map_length; exact IH).
+  cbn [frame]. rewrite fpaths_FM. simpl. generalize 0.
+  induction IH as [|ec r H _ IHr]; intro k; simpl; [reflexivity|].
+  rewrite !app_length, map_length, H, IHr. reflexivity.
+Qed.
+
+Definition mark (p : list nat) (pa : list nat) (l : leaf) : leaf := if is_prefix p pa then leaf_stop l else l.
+
+Lemma map2_const {A B C} (g : B -> C) (a : list A) (b : list B) : length a = length b ->
+  map2 (fun _ y => g y) a b = map g b.
+Proof.
+  unfold map2. revert b. induction a as [|x a IH]; intros [|y b] H; simpl in *; try discriminate; [reflexivity|].
+  rewrite IH; [reflexivity|]. injection H as H; exact H.
+Qed.
+
+Lemma gpaths_length k l : length (gpaths k (map (fun ec => (fst ec, frame (snd ec))) l))
+                          = length (flat_map (fun ec => lvs (snd ec)) l).
+Proof.
+  revert k. induction l as [|ec r IH]; intro k; simpl; [reflexivity|].
+  rewrite !app_length, map_length, fpaths_length, IH. reflexivity.
+Qed.
+
+(* members with a larger index are not below the path *)
+Lemma mark_later j q : forall l k, j < k ->
+  map2 (mark (j :: q)) (gpaths k (map (fun ec => (fst ec, frame (snd ec))) l)) (flat_map (fun ec => lvs (snd ec)) l)
+  = flat_map (fun ec => lvs (snd ec)) l.
+Proof.
+  induction l as [|ec r IH]; intros k Hk; simpl; [reflexivity|].
+  rewrite map2_app by (rewrite map_length; apply fpaths_length).
+  rewrite IH by lia. f_equal. rewrite map2_map_l.
+  rewrite (map2_ext _ (fun _ y => y)).
+  - apply map2_snd. apply fpaths_length.
+  - intros pa y _. unfold mark. simpl. replace (Nat.eqb j k) with false; [reflexivity|].
+    symmetry. apply Nat.eqb_neq. lia.
+Qed.
+
+Lemma stop_at_ok p : forall n, lvs (stop_at p n) = map2 (mark p) (fpaths (frame n)) (lvs n).
+Proof.
+  induction p as [|j q IHq]; intro n.
+  - simpl. rewrite lvs_stop. unfold mark. simpl. symmetry. apply map2_const. apply fpaths_length.
+  - assert (unary : forall x, lvs (match j with 0 => stop_at q x | S _ => x end)
+                              = map2 (mark (j :: q)) (map (cons 0) (fpaths (frame x))) (lvs x)).
+    { intro x. rewrite map2_map_l. destruct j.
+      - rewrite IHq. apply map2_ext. intros pa y _. reflexivity.
+      - rewrite (map2_ext _ (fun _ y => y)); [symmetry; apply map2_snd, fpaths_length|].
+        intros pa y _. reflexivity. }
+    destruct n as [r|e|l|ff e x|e x|ff x]; try reflexivity.
+    + rewrite stop_at_Multi. cbn [frame lvs]. rewrite fpaths_FM.
+      assert (G : forall l k j', k + j' = j ->
+                lvs (NMulti (gstop q l j'))
+                = map2 (mark (j :: q)) (gpaths k (map (fun ec => (fst ec, frame (snd ec))) l))
+                       (flat_map (fun ec => lvs (snd ec)) l)).
+      { clear l. induction l as [|ec r IHl]; intros k j' Hj; [destruct j'; reflexivity|].
+        cbn [map gpaths flat_map fst snd]. rewrite map2_app by (rewrite map_length; apply fpaths_length).
+        destruct j' as [|j'].
+        - cbn [gstop lvs flat_map fst snd]. rewrite mark_later by lia. f_equal.
+          rewrite IHq, map2_map_l. apply map2_ext. intros pa y _. unfold mark. simpl.
+          replace (Nat.eqb j k) with true; [reflexivity|]. symmetry. apply Nat.eqb_eq. lia.
+        - cbn [gstop lvs flat_map]. specialize (IHl (S k) j'). cbn [lvs] in IHl. rewrite IHl by lia. f_equal.
+          rewrite map2_map_l. rewrite (map2_ext _ (fun _ y => y)); [symmetry; apply map2_snd, fpaths_length|].
+          intros pa y _. unfold mark. simpl. replace (Nat.eqb j k) with false; [reflexivity|].
+          symmetry. apply Nat.eqb_neq. lia. }
+      apply (G l 0 j). reflexivity.
+    + simpl. destruct j; apply (unary x).
+    + simpl. destruct j; apply (unary x).
+    + simpl. destruct j; apply (unary x).
+Qed.
+
+(* ====================================================================== *)
+(* 5. the trajectory of every underlying result                           *)
+(* ====================================================================== *)
+Notation stat := (bool * bool * list nat)%type (only parsing).     (* below a forwarder, stopped by the stack, path *)
+Definition statics (f : fr) : list stat := combine (finfo false false f) (fpaths f).
+Definition leaf_do (s : stat) (l : leaf) (o : op) : leaf :=
+  match o with StopAt p => mark p (snd s) l | _ => leaf_evolve o (fst s) l end.
+
+Lemma map2_combine_fst {A B C D} (f : A -> C -> D) (a : list A) (b : list B) (c : list C) :
+  length a = length b -> map2 (fun s => f (fst s)) (combine a b) c = map2 f a c.
+Proof.
+  unfold map2. revert b c. induction a as [|x a IH]; intros [|y b] [|z c] H; simpl in *; try discriminate;
+    try reflexivity. rewrite IH; [reflexivity|]. injection H as H; exact H.
+Qed.
+Lemma map2_combine_snd {A B C D} (f : B -> C -> D) (a : list A) (b : list B) (c : list C) :
+  length a = length b -> map2 (fun s => f (snd s)) (combine a b) c = map2 f b c.
+Proof.
+  unfold map2. revert b c. induction a as [|x a IH]; intros b c H; destruct b as [|y b]; simpl in H;
+    try discriminate; [reflexivity|].
+  destruct c as [|z c]; simpl; [reflexivity|]. rewrite IH; [reflexivity|]. injection H as H; exact H.
+Qed.
+Lemma map2_fuse {A B} (f g : A -> B -> B) (s : list A) (l : list B) :
+  map2 f s (map2 g s l) = map2 (fun x y => f x (g x y)) s l.
+Proof.
+  unfold map2. revert l. induction s as [|x s IH]; intros [|y l]; simpl; try reflexivity. rewrite IH. reflexivity.
+Qed.
+
+Lemma statics_lengths n : length (finfo false false (frame n)) = length (fpaths (frame n)).
+Proof. rewrite finfo_length, fpaths_length. reflexivity. Qed.
+
+Lemma statics_length n : length (statics (frame n)) = length (lvs n).
+Proof. unfold statics. rewrite combine_length, <- statics_lengths, Nat.min_id. apply finfo_length. Qed.
+
+Lemma do_op_ok n o : lvs (do_op n o) = map2 (fun s l => leaf_do s l o) (statics (frame n)) (lvs n).
+Proof.
+  assert (S : forall o', lvs (step n o') = map2 (fun s l => leaf_evolve o' (fst s) l) (statics (frame n)) (lvs n)).
+  { intro o'. pose proof (step_ok n o' false) as L. rewrite andb_false_r in L. simpl in L. rewrite <- L.
+    unfold statics. symmetry. apply (map2_combine_fst (leaf_evolve o')). apply statics_lengths. }
+  destruct o; simpl; try apply S.
+  rewrite stop_at_ok. symmetry. unfold statics. apply (map2_combine_snd (mark p)). apply statics_lengths.
+Qed.
+
+Lemma trajectory h : forall n,
+  lvs (fold_left do_op h n) = map2 (fun s l => fold_left (leaf_do s) h l) (statics (frame n)) (lvs n).
+Proof.
+  induction h as [|o r IH]; intro n; simpl.
+  - symmetry. apply map2_snd. apply statics_length.
+  - rewrite IH, frame_do_op, do_op_ok, map2_fuse. reflexivity.
+Qed.
+
+(* ====================================================================== *)
+(* 6. one underlying result over a whole history                          *)
+(* ====================================================================== *)
+Lemma since_run_snoc h o :
+  since_run (h ++ [o]) = match o with StartRun => [] | _ => since_run h ++ [o] end.
+Proof. unfold since_run. rewrite fold_left_app. simpl. destruct o; reflexivity. Qed.
+
+Lemma is_problem_bad o : is_problem o = is_bad_call o.
+Proof. destruct o as [| | k t | | | k t |]; try reflexivity; destruct k; reflexivity. Qed.
+
+Lemma leaf_ff_stop l : leaf_ff (leaf_stop l) = leaf_ff l.
+Proof. destruct l; reflexivity. Qed.
+Lemma leaf_ff_step l m : leaf_ff (leaf_step l m) = leaf_ff l.
+Proof. destruct l; simpl; [apply tr_ff_step|apply e_ff_step]. Qed.
+
+Lemma leaf_ff_do s l o : leaf_ff (leaf_do s l o) = leaf_ff l.
+Proof.
+  assert (D : forall u, leaf_ff (leaf_deliver u l o) = leaf_ff l).
+  { intro u. unfold leaf_deliver. destruct (if u then tfr_conv o else Some o); [apply leaf_ff_step|reflexivity]. }
+  destruct o; simpl; unfold leaf_evolve, mark;
+    repeat match goal with |- context [if ?c then _ else _] => destruct c end;
+    rewrite ?leaf_ff_stop, ?D; reflexivity.
+Qed.
+
+Lemma leaf_stopped_step l m :
+  leaf_stopped (leaf_step l m) =
+  match m with
+  | StartRun => false
+  | Outcome k _ | Block k _ => leaf_stopped l || (bad k && leaf_ff l)
+  | _ => leaf_stopped l
+  end.
+Proof.
+  destruct l as [r|e]; destruct m; try reflexivity.
+  - simpl. unfold tr_outcome; simpl. destruct (bad k && tr_ff r); simpl; rewrite ?orb_true_r, ?orb_false_r; reflexivity.
+  - simpl. destruct (tr_text r); reflexivity.
+  - simpl. unfold tr_outcome; simpl. destruct (bad k && tr_ff r); simpl; rewrite ?orb_true_r, ?orb_false_r; reflexivity.
+  - unfold leaf_stopped, leaf_step, e2s_step, e2s_outcome, leaf_ff; cbn [e_stopped e_ff].
+    rewrite table_failfast, andb_comm; reflexivity.
+  - unfold leaf_stopped, leaf_step, e2s_step, e2s_outcome, e2s_start_test, leaf_ff; cbn [e_stopped e_ff].
+    rewrite table_failfast, andb_comm; reflexivity.
+Qed.
+
+Lemma leaf_stopped_do u w pa l o : (leaf_ff l = true -> w = true) ->
+  leaf_stopped (leaf_do (u, w, pa) l o) =
+  match o with
+  | StartRun => false
+  | StopAt p => leaf_stopped l || is_prefix p pa
+  | _ => leaf_stopped l || (is_bad_call o && w)
+  end.
+Proof.
+  intro Hw.
+  assert (St : leaf_stopped (leaf_stop l) = true) by (destruct l; reflexivity).
+  destruct o as [|t|k t|t| |k t|p]; simpl; unfold leaf_evolve, leaf_deliver, mark; simpl;
+    try (destruct u; simpl; rewrite ?leaf_stopped_step, ?orb_false_r; reflexivity).
+  - (* Outcome *)
+    destruct (bad k && w) eqn:E.
+    + destruct u; simpl; destruct (leaf_step l _); simpl; rewrite orb_true_r; reflexivity.
+    + rewrite orb_false_r. destruct u; simpl; rewrite leaf_stopped_step;
+        (destruct (bad k); simpl in *; [|apply orb_false_r]);
+        (destruct (leaf_ff l); [rewrite Hw in E by reflexivity; discriminate|apply orb_false_r]).
+  - (* Block *)
+    destruct (bad k && w) eqn:E.
+    + destruct u; simpl; destruct (leaf_step l _); simpl; rewrite orb_true_r; reflexivity.
+    + rewrite orb_false_r. destruct u; simpl; rewrite leaf_stopped_step;
+        (destruct (bad k); simpl in *; [|apply orb_false_r]);
+        (destruct (leaf_ff l); [rewrite Hw in E by reflexivity; discriminate|apply orb_false_r]).
+  - destruct (is_prefix p pa); [rewrite St, orb_true_r|rewrite orb_false_r]; reflexivity.
+Qed.
+
+Definition traj (s : stat) (l : leaf) (h : list op) : leaf := fold_left (leaf_do s) h l.
+
+Lemma traj_snoc s l h o : traj s l (h ++ [o]) = leaf_do s (traj s l h) o.
+Proof. unfold traj. rewrite fold_left_app. reflexivity. Qed.
+
+Lemma traj_ff s l h : leaf_ff (traj s l h) = leaf_ff l.
+Proof.
+  induction h as [|o r IH] using rev_ind; [reflexivity|]. rewrite traj_snoc, leaf_ff_do. exact IH.
+Qed.
+
+(* shouldStop of an underlying result = stop() reached it, or the stack stops it and a bad outcome came,
+   since the last startTestRun *)
+Lemma stopped_after u w pa l h : leaf_stopped l = false -> (leaf_ff l = true -> w = true) ->
+  leaf_stopped (traj (u, w, pa) l h)
+  = existsb (stop_reaches pa) (since_run h) || (w && existsb is_problem (since_run h)).
+Proof.
+  intros H0 Hw. induction h as [|o r IH] using rev_ind.
+  - simpl. rewrite H0, andb_false_r. reflexivity.
+  - rewrite traj_snoc, leaf_stopped_do by (rewrite traj_ff; exact Hw).
+    rewrite since_run_snoc, IH.
+    destruct o as [|t|k t|t| |k t|p]; rewrite ?existsb_app; simpl; rewrite ?is_problem_bad; simpl;
+      generalize (existsb (stop_reaches pa) (since_run r)) (existsb is_problem (since_run r));
+      intros a b; try (destruct a, b, w; reflexivity).
+    + destruct a, b, w, (bad k); reflexivity.
+    + destruct a, b, w, (bad k); reflexivity.
+    + destruct a, b, w, (is_prefix p pa); reflexivity.
+Qed.
+
+(* ---------- the part of a TestResult that stop() and failfast do not touch ---------- *)
+Record core := { c_err : list tid; c_fail : list tid; c_uxs : list tid; c_run : nat; c_text : bool;
+                 c_out : list summary }.
+Definition core_of (r : tr) : core :=
+  {| c_err := errors r; c_fail := failures r; c_uxs := uxs r; c_run := tests_run r; c_text := tr_text r;
+     c_out := tr_out r |}.
+Definition c_sections (c : core) : list (nat * tid) :=
+  map (pair 0) (c_err c) ++ map (pair 1) (c_fail c) ++ map (pair 2) (c_uxs c).
+Definition c_ok (c : core) : bool := match c_err c, c_fail c, c_uxs c with [], [], [] => true | _, _, _ => false end.
+Definition c_summary (c : core) : summary :=
+  {| s_ran := c_run c;
+     s_failed := if c_ok c then None else Some (length (c_fail c) + length (c_err c) + length (c_uxs c));
+     s_sections := c_sections c |}.
+Definition c_add (c : core) (k : kind) (t : tid) (run : nat) : core :=
+  {| c_err := match k with KError => c_err c ++ [t] | _ => c_err c end;
+     c_fail := match k with KFailure => c_fail c ++ [t] | _ => c_fail c end;
+     c_uxs := match k with KUxsuccess => c_uxs c ++ [t] | _ => c_uxs c end;
+     c_run := run; c_text := c_text c; c_out := c_out c |}.
+Definition core_step1 (c : core) (m : op) : core :=
+  match m with
+  | StartRun => {| c_err := []; c_fail := []; c_uxs := []; c_run := 0; c_text := c_text c; c_out := c_out c |}
+  | StartTest _ => {| c_err := c_err c; c_fail := c_fail c; c_uxs := c_uxs c; c_run := S (c_run c);
+                      c_text := c_text c; c_out := c_out c |}
+  | Outcome k t => c_add c k t (c_run c)
+  | Block k t => c_add c k t (S (c_run c))
+  | StopRun => if c_text c then {| c_err := c_err c; c_fail := c_fail c; c_uxs := c_uxs c; c_run := c_run c;
+                                   c_text := true; c_out := c_out c ++ [c_summary c] |} else c
+  | _ => c
+  end.
+Definition core_step (u : bool) (c : core) (o : op) : core :=
+  match (if u then tfr_conv o else Some o) with Some m => core_step1 c m | None => c end.
+
+Lemma tr_summary_core r : tr_summary r = c_summary (core_of r).
+Proof. reflexivity. Qed.
+Lemma tr_ok_core r : tr_ok r = c_ok (core_of r).
+Proof. reflexivity. Qed.
+
+Lemma core_tr_step r m : core_of (tr_step r m) = core_step1 (core_of r) m.
+Proof.
+  destruct m; try reflexivity; simpl.
+  - unfold tr_outcome. destruct (bad k && tr_ff r); destruct k; reflexivity.
+  - unfold core_of at 2. simpl. destruct (tr_text r); reflexivity.
+  - unfold tr_outcome. destruct (bad k && _); destruct k; reflexivity.
+Qed.
+
+Lemma core_do s r o : exists r', leaf_do s (LTR r) o = LTR r' /\ core_of r' = core_step (fst (fst s)) (core_of r) o.
+Proof.
+  destruct s as [[u w] pa].
+  assert (E : forall o', exists r', leaf_evolve o' (u, w) (LTR r) = LTR r'
+                                    /\ core_of r' = core_step u (core_of r) o').
+  { intro o'. unfold leaf_evolve, leaf_deliver, core_step. simpl.
+    destruct (if u then tfr_conv o' else Some o') as [m|]; simpl;
+      destruct (is_bad_call o' && w); simpl; eexists; split; try reflexivity;
+      rewrite <- ?core_tr_step; reflexivity. }
+  destruct o; simpl; try apply E.
+  unfold mark, core_step. simpl. destruct u; simpl; destruct (is_prefix p pa); eexists; split; reflexivity.
+Qed.
+
+Lemma core_traj s h : forall r, exists r', traj s (LTR r) h = LTR r'
+  /\ core_of r' = fold_left (core_step (fst (fst s))) h (core_of r).
+Proof.
+  induction h as [|o t IH]; intro r; simpl; [eexists; split; reflexivity|].
+  destruct (core_do s r o) as [r1 [E1 C1]]. unfold traj in *. simpl. rewrite E1.
+  destruct (IH r1) as [r2 [E2 C2]]. exists r2. split; [exact E2|]. rewrite C2, C1. reflexivity.
+Qed.
+
+Lemma e2s_traj s h : forall e, exists e', traj s (LE2S e) h = LE2S e'.
+Proof.
+  induction h as [|o t IH]; intro e; [eexists; reflexivity|]. unfold traj in *. simpl.
+  assert (E : exists e1, leaf_do s (LE2S e) o = LE2S e1).
+  { destruct s as [[u w] pa]. destruct o; simpl; unfold leaf_evolve, leaf_deliver, mark; simpl;
+      repeat match goal with |- context [if ?c then _ else _] => destruct c end; simpl; eexists; reflexivity. }
+  destruct E as [e1 E1]. rewrite E1. apply IH.
+Qed.
+
+(* ---------- ... and what it holds after a history ---------- *)
+Definition one_problem (o : op) : list (nat * tid) := match problem o with Some p => [p] | None => [] end.
+
+Lemma problems_app l m : problems (l ++ m) = problems l ++ problems m.
+Proof.
+  induction l as [|o r IH]; simpl; [reflexivity|]. destruct (problem o); simpl; rewrite IH; reflexivity.
+Qed.
+Lemma problems_one o : problems [o] = one_problem o.
+Proof. unfold one_problem. simpl. destruct (problem o); reflexivity. Qed.
+
+Lemma count_app {A} (e : A -> A -> bool) x a b : count e x (a ++ b) = count e x a + count e x b.
+Proof. unfold count. rewrite filter_app, app_length. reflexivity. Qed.
+
+Lemma sections_add c k t run x :
+  count sec_eqb x (c_sections (c_add c k t run))
+  = count sec_eqb x (c_sections c) + count sec_eqb x (one_problem (Outcome k t)).
+Proof.
+  unfold c_sections, one_problem. destruct k; cbn [c_add c_err c_fail c_uxs problem];
+    rewrite ?map_app, ?count_app; cbn [map]; change (count sec_eqb x []) with 0; lia.
+Qed.
+Lemma lengths_add c k t run :
+  length (c_fail (c_add c k t run)) + length (c_err (c_add c k t run)) + length (c_uxs (c_add c k t run))
+  = length (c_fail c) + length (c_err c) + length (c_uxs c) + length (one_problem (Outcome k t)).
+Proof. unfold one_problem. destruct k; simpl; rewrite ?app_length; simpl; lia. Qed.
+Lemma one_problem_block k t : one_problem (Block k t) = one_problem (Outcome k t).
+Proof. destruct k; reflexivity. Qed.
+
+Definition cfold (u : bool) (h : list op) (c : core) : core := fold_left (core_step u) h c.
+Lemma cfold_snoc u h o c : cfold u (h ++ [o]) c = core_step u (cfold u h c) o.
+Proof. unfold cfold. rewrite fold_left_app. reflexivity. Qed.
+
+Definition fresh_core (txt : bool) : core :=
+  {| c_err := []; c_fail := []; c_uxs := []; c_run := 0; c_text := txt; c_out := [] |}.
+
+Record core_inv (u : bool) (h : list op) (c : core) : Prop := {
+  ci_sections : forall x, count sec_eqb x (c_sections c) = count sec_eqb x (problems (since_run h));
+  ci_lengths : length (c_fail c) + length (c_err c) + length (c_uxs c) = length (problems (since_run h));
+  ci_run : c_run c = length (filter (counts_as_test u) (since_run h))
+}.
+
+Lemma core_inv_holds u txt h : core_inv u h (cfold u h (fresh_core txt)).
+Proof.
+  induction h as [|o r IH] using rev_ind; [constructor; reflexivity|].
+  rewrite cfold_snoc. destruct IH as [I1 I2 I3]. set (c := cfold u r (fresh_core txt)) in *.
+  assert (plain : forall c', c_sections c' = c_sections c -> c_fail c' = c_fail c -> c_err c' = c_err c ->
+                             c_uxs c' = c_uxs c ->
+                             c_run c' = c_run c + (if counts_as_test u o then 1 else 0) ->
+                             one_problem o = [] -> o <> StartRun ->
+                             core_inv u (r ++ [o]) c').
+  { intros c' E1 E2 E3 E4 E5 Hp Hn. rewrite <- problems_one in Hp.
+    assert (Es : since_run (r ++ [o]) = since_run r ++ [o]) by (rewrite since_run_snoc; destruct o; congruence).
+    constructor; rewrite Es.
+    - intro x. rewrite problems_app, Hp, app_nil_r, E1. apply I1.
+    - rewrite problems_app, Hp, app_nil_r, E2, E3, E4. exact I2.
+    - rewrite filter_app, app_length. cbn [filter]. rewrite E5, I3.
+      destruct (counts_as_test u o); simpl; lia. }
+  assert (added : forall k t run, one_problem o = one_problem (Outcome k t) -> o <> StartRun ->
+                    run = c_run c + (if counts_as_test u o then 1 else 0) ->
+                    core_inv u (r ++ [o]) (c_add c k t run)).
+  { intros k t run Hp Hn Hr. rewrite <- problems_one in Hp.
+    assert (Es : since_run (r ++ [o]) = since_run r ++ [o]) by (rewrite since_run_snoc; destruct o; congruence).
+    constructor; rewrite Es.
+    - intro x. rewrite problems_app, count_app, Hp, sections_add, I1. reflexivity.
+    - rewrite problems_app, app_length, Hp, lengths_add, I2. reflexivity.
+    - rewrite filter_app, app_length. cbn [filter c_add c_run]. rewrite Hr, I3.
+      destruct (counts_as_test u o); simpl; lia. }
+  unfold core_step. destruct o as [|t|k t|t| |k t|p]; destruct u; simpl.
+  all: try (apply plain; try reflexivity; try discriminate; simpl; lia).
+  all: try (apply added; [rewrite ?one_problem_block; reflexivity|discriminate|simpl; lia]).
+  all: try (constructor; rewrite since_run_snoc; reflexivity).
+  all: destruct (c_text c); apply plain; try reflexivity; try discriminate; simpl; lia.
+Qed.
+
+Lemma c_text_cfold u h c : c_text (cfold u h c) = c_text c.
+Proof.
+  induction h as [|o r IH] using rev_ind; [reflexivity|]. rewrite cfold_snoc, <- IH.
+  unfold core_step. destruct (if u then tfr_conv o else Some o) as [m|]; [|reflexivity].
+  destruct m; simpl; try reflexivity. destruct (c_text (cfold u r c)) eqn:E; simpl; congruence.
+Qed.
+
+Lemma c_out_step u c o :
+  c_out (core_step u c o) = match o with
+                            | StopRun => if c_text c then c_out c ++ [c_summary c] else c_out c
+                            | _ => c_out c
+                            end.
+Proof.
+  unfold core_step. destruct o, u; simpl; try reflexivity; destruct (c_text c); reflexivity.
+Qed.
+
+Lemma c_out_after u c0 h : forall pre,
+  c_out (cfold u (pre ++ h) c0)
+  = c_out (cfold u pre c0)
+    ++ (if c_text c0 then map (fun p => c_summary (cfold u p c0)) (before_stop_runs pre h) else []).
+Proof.
+  induction h as [|o r IH]; intro pre.
+  - rewrite app_nil_r. simpl. destruct (c_text c0); rewrite app_nil_r; reflexivity.
+  - replace (pre ++ o :: r) with ((pre ++ [o]) ++ r) by (rewrite <- app_assoc; reflexivity).
+    rewrite IH, cfold_snoc, c_out_step, c_text_cfold.
+    destruct o; simpl; try reflexivity.
+    destruct (c_text c0); [rewrite <- app_assoc; reflexivity|reflexivity].
+Qed.
+
+Lemma c_ok_problems u h c : core_inv u h c -> c_ok c = match problems (since_run h) with [] => true | _ => false end.
+Proof.
+  intros [_ I2 _]. unfold c_ok. destruct (problems (since_run h)); simpl in I2;
+    destruct (c_err c), (c_fail c), (c_uxs c); simpl in *; try reflexivity; lia.
+Qed.
+
+Lemma summary_ok u h c : core_inv u h c -> summary_okb u h (c_summary c) = true.
+Proof.
+  intro I. pose proof (c_ok_problems u h c I) as Hok. destruct I as [I1 I2 I3].
+  unfold summary_okb, c_summary. cbn [s_ran s_failed s_sections].
+  rewrite I3, Nat.eqb_refl. simpl. apply andb_true_iff. split.
+  - rewrite Hok. destruct (problems (since_run h)); simpl; [reflexivity|].
+    rewrite I2. simpl. apply Nat.eqb_refl.
+  - unfold same_sections. apply forallb_forall. intros x _. rewrite I1. apply Nat.eqb_refl.
+Qed.
+
+(* ====================================================================== *)
+(* 7. a freshly built stack                                               *)
+(* ====================================================================== *)
+Section adapter_ind'.
+  Variable P : adapter -> Prop.
+  Hypothesis HR : forall ff txt, P (ATR ff txt).
+  Hypothesis HS : P AE2S.
+  Hypothesis HM : forall l, Forall P l -> P (AMulti l).
+  Hypothesis HF : forall a, P a -> P (ATFR a).
+  Hypothesis HO : forall a, P a -> P (AE2O a).
+  Hypothesis HD : forall t a, P a -> P (ADeco t a).
+  Fixpoint adapter_ind' (a : adapter) : P a :=
+    let fix go (l : list adapter) : Forall P l :=
+      match l with [] => Forall_nil _ | x :: r => Forall_cons x (adapter_ind' x) (go r) end in
+    match a with
+    | ATR ff txt => HR ff txt | AE2S => HS | AMulti l => HM l (go l)
+    | ATFR x => HF x (adapter_ind' x) | AE2O x => HO x (adapter_ind' x) | ADeco t x => HD t x (adapter_ind' x)
+    end.
+End adapter_ind'.
+
+(* per underlying result: path, below a forwarder, its state *)
+Notation dsc := (list nat * bool * leaf)%type (only parsing).
+Definition down (j : nat) (d : dsc) : dsc := (j :: fst (fst d), snd (fst d), snd d).
+Fixpoint descr (u : bool) (n : node) : list dsc :=
+  match n with
+  | NTR r => [([], u, LTR r)]
+  | NE2S e => [([], u, LE2S e)]
+  | NMulti l => (fix go (j : nat) (l : list (bool * node)) : list dsc :=
+                   match l with [] => [] | ec :: r => map (down j) (descr u (snd ec)) ++ go (S j) r end) 0 l
+  | NTFR _ _ x => map (down 0) (descr true x)
+  | NE2O _ x | NDeco _ x => map (down 0) (descr u x)
+  end.
+Fixpoint gdescr (u : bool) (k : nat) (l : list (bool * node)) : list dsc :=
+  match l with [] => [] | ec :: r => map (down k) (descr u (snd ec)) ++ gdescr u (S k) r end.
+Lemma descr_Multi u l : descr u (NMulti l) = gdescr u 0 l.
+Proof. simpl. generalize 0. induction l as [|ec r IH]; intro k; simpl; [reflexivity|]. rewrite IH. reflexivity. Qed.
+
+Lemma descr_lvs n : forall u, map snd (descr u n) = lvs n.
+Proof.
+  induction n as [r|e|l IH|ff e x IH|e x IH|ff x IH] using node_ind'; intro u; try reflexivity;
+    try (simpl; rewrite map_map; simpl; apply IH).
+  rewrite descr_Multi. simpl. generalize 0.
+  induction IH as [|ec r H _ IHr]; intro k; simpl; [reflexivity|].
+  rewrite map_app, map_map, IHr. simpl. rewrite H. reflexivity.
+Qed.
+
+Lemma descr_paths n : forall u, map (fun d => fst (fst d)) (descr u n) = fpaths (frame n).
+Proof.
+  induction n as [r|e|l IH|ff e x IH|e x IH|ff x IH] using node_ind'; intro u; try reflexivity;
+    try (simpl; rewrite map_map; simpl;
+         rewrite <- (map_map (fun d : list nat * bool * leaf => fst (fst d)) (cons 0)), IH; reflexivity).
+  rewrite descr_Multi. cbn [frame]. rewrite fpaths_FM. generalize 0.
+  induction IH as [|ec r H _ IHr]; intro k; simpl; [reflexivity|].
+  rewrite map_app, map_map, IHr. simpl. rewrite <- (H u), map_map. reflexivity.
+Qed.
+
+Lemma descr_unders n : forall cov u, map (fun d => snd (fst d)) (descr u n) = map fst (finfo cov u (frame n)).
+Proof.
+  induction n as [r|e|l IH|ff e x IH|e x IH|ff x IH] using node_ind'; intros cov u; try reflexivity;
+    try (simpl; rewrite map_map; simpl; apply IH).
+  rewrite descr_Multi. simpl. generalize 0.
+  induction IH as [|ec r H _ IHr]; intro k; simpl; [reflexivity|].
+  rewrite !map_app, map_map, IHr. simpl. f_equal. apply H.
+Qed.
+
+(* the stack's decision covers every result that has failfast itself *)
+Lemma ff_implies_will n : forall cov u,
+  Forall2 (fun uw l => leaf_ff l = true -> snd uw = true) (finfo cov u (frame n)) (lvs n).
+Proof.
+  induction n as [r|e|l IH|ff e x IH|e x IH|ff x IH] using node_ind'; intros cov u; simpl; try apply IH.
+  - constructor; [|constructor]. simpl. intros ->. apply orb_true_r.
+  - constructor; [|constructor]. simpl. intros ->. apply orb_true_r.
+  - induction IH as [|ec r H _ IHr]; simpl; [constructor|]. apply Forall2_app; [apply H|exact IHr].
+Qed.
+
+(* assigning failfast changes nothing but failfast *)
+Definition same_but_ff (l l' : leaf) : Prop :=
+  match l, l' with
+  | LTR r, LTR r' => core_of r' = core_of r /\ tr_stopped r' = tr_stopped r
+  | LE2S e, LE2S e' => e_stopped e' = e_stopped e
+  | _, _ => False
+  end.
+Definition dsc_same (d d' : dsc) : Prop := fst d' = fst d /\ same_but_ff (snd d) (snd d').
+
+Lemma same_but_ff_refl l : same_but_ff l l.
+Proof. destruct l; simpl; auto. Qed.
+Lemma dsc_same_refl l : Forall2 dsc_same l l.
+Proof. induction l; constructor; [split; [reflexivity|apply same_but_ff_refl]|assumption]. Qed.
+Lemma dsc_same_down j l l' : Forall2 dsc_same l l' -> Forall2 dsc_same (map (down j) l) (map (down j) l').
+Proof.
+  induction 1 as [|d d' l l' [H1 H2] _ IH]; simpl; constructor; [|exact IH].
+  split; [unfold down; simpl; rewrite H1; reflexivity|exact H2].
+Qed.
+
+Lemma descr_set_ff b n : forall u, Forall2 dsc_same (descr u n) (descr u (set_ff b n)).
+Proof.
+  induction n as [r|e|l IH|ff e x IH|e x IH|ff x IH] using node_ind'; intro u;
+    try (simpl; apply dsc_same_refl).
+  - simpl. constructor; [|constructor]. split; [reflexivity|]. simpl. auto.
+  - simpl. constructor; [|constructor]. split; [reflexivity|]. simpl. auto.
+  - cbn [set_ff]. rewrite !descr_Multi. generalize 0.
+    induction IH as [|ec r H _ IHr]; intro k; simpl; [constructor|].
+    apply Forall2_app; [|apply IHr]. apply dsc_same_down.
+    destruct (has_ff (snd ec)); simpl; [apply H|apply dsc_same_refl].
+  - simpl. destruct (has_ff x); simpl; [apply dsc_same_down, IH|apply dsc_same_refl].
+Qed.
+
+Definition fresh_for (li : leaf_info) (l : leaf) : Prop :=
+  match l with
+  | LTR r => li_e2s li = false /\ core_of r = fresh_core (li_text li) /\ tr_stopped r = false
+  | LE2S e => li_e2s li = true /\ li_text li = false /\ e_stopped e = false
+  end.
+Definition matches (u : bool) (li : leaf_info) (d : list nat * bool * leaf) : Prop :=
+  fst (fst d) = li_path li /\ snd (fst d) = u || li_tfr li /\ fresh_for li (snd d).
+
+Fixpoint ginfos (k : nat) (l : list adapter) : list leaf_info :=
+  match l with [] => [] | x :: r => map (li_down k) (leaf_infos x) ++ ginfos (S k) r end.
+Lemma leaf_infos_Multi l : leaf_infos (AMulti l) = ginfos 0 l.
+Proof. simpl. generalize 0. induction l as [|x r IH]; intro k; simpl; [reflexivity|]. rewrite IH. reflexivity. Qed.
+
+Lemma Forall2_impl {A B} (P Q : A -> B -> Prop) l m :
+  (forall a b, P a b -> Q a b) -> Forall2 P l m -> Forall2 Q l m.
+Proof. intros H; induction 1; constructor; auto. Qed.
+
+Lemma F2_maps {A A' B B'} (P : A' -> B' -> Prop) (f : A -> A') (g : B -> B') l m :
+  Forall2 (fun a b => P (f a) (g b)) l m -> Forall2 P (map f l) (map g m).
+Proof. induction 1; simpl; constructor; assumption. Qed.
+
+Lemma matches_same u l d d' : Forall2 (matches u) l d -> Forall2 dsc_same d d' -> Forall2 (matches u) l d'.
+Proof.
+  intro H. revert d'. induction H as [|li x l d [M1 [M2 M3]] _ IH]; intros d' S; inversion S; subst; constructor;
+    [|apply IH; assumption].
+  match goal with Hs : dsc_same x ?y |- _ => destruct Hs as [E1 E2]; rename y into x' end.
+  unfold matches. rewrite E1. repeat split; try assumption.
+  destruct x as [px lx], x' as [px' lx']; simpl in *. destruct lx, lx'; simpl in *; try contradiction.
+  - destruct E2 as [Ec Es]. rewrite Ec, Es. exact M3.
+  - rewrite E2. exact M3.
+Qed.
+
+Lemma matches_down u j l d : Forall2 (matches u) l d -> Forall2 (matches u) (map (li_down j) l) (map (down j) d).
+Proof.
+  intro H. apply F2_maps. eapply Forall2_impl; [|exact H]. intros li x [M1 [M2 M3]].
+  unfold matches, down; simpl. rewrite M1. repeat split; try assumption;
+    try (destruct (snd x); exact M3).
+Qed.
+
+Lemma build_descr a : forall u, Forall2 (matches u) (leaf_infos a) (descr u (build a)).
+Proof.
+  induction a as [ff txt| |l IH|x IH|x IH|t x IH] using adapter_ind'; intro u.
+  - simpl. constructor; [|constructor]. unfold matches; simpl. rewrite orb_false_r. auto.
+  - simpl. constructor; [|constructor]. unfold matches; simpl. rewrite orb_false_r. auto.
+  - rewrite leaf_infos_Multi. cbn [build]. rewrite descr_Multi. generalize 0.
+    induction IH as [|x r H _ IHr]; intro k; simpl; [constructor|].
+    apply Forall2_app; [|apply IHr]. apply matches_down.
+    unfold e2o_set; simpl. destruct (has_ff (build x)); simpl; [|apply H].
+    eapply matches_same; [apply H|apply descr_set_ff].
+  - simpl. rewrite <- (map_map li_under_tfr (li_down 0)). apply matches_down.
+    rewrite <- (map_id (descr true (build x))). apply F2_maps.
+    eapply Forall2_impl; [|apply (IH true)]. intros li d [M1 [M2 M3]].
+    unfold matches; simpl. rewrite orb_true_r. repeat split; try assumption;
+      try (destruct (snd d); exact M3).
+  - simpl. apply matches_down. apply IH.
+  - simpl. apply matches_down. apply IH.
+Qed.
+
+Lemma init_descr a s : Forall2 (matches false) (leaf_infos a) (descr false (init a s)).
+Proof.
+  destruct s as [b|]; simpl; [|apply build_descr].
+  eapply matches_same; [apply build_descr|apply descr_set_ff].
+Qed.
+
+(* ====================================================================== *)
+(* 8. putting it together                                                 *)
+(* ====================================================================== *)
+Lemma F2_map_r {A B C} (R : A -> C -> Prop) (g : B -> C) a d :
+  Forall2 R a (map g d) <-> Forall2 (fun x y => R x (g y)) a d.
+Proof.
+  revert d. induction a as [|x a IH]; intros [|y d]; simpl; split; intro H; try constructor;
+    try (inversion H; fail); inversion H; subst; try assumption; apply IH; assumption.
+Qed.
+
+Lemma F2_transport {A B B' C} (R : A -> C -> Prop) (g : B -> C) (h : B' -> C) a d w :
+  map g d = map h w -> Forall2 (fun x y => R x (g y)) a d -> Forall2 (fun x y => R x (h y)) a w.
+Proof. intros E H. apply F2_map_r. rewrite <- E. apply F2_map_r. exact H. Qed.
+
+Lemma F2_of_maps {A B C} (f : A -> C) (g : B -> C) a b : map f a = map g b -> Forall2 (fun x y => g y = f x) a b.
+Proof.
+  revert b. induction a as [|x a IH]; intros [|y b] H; simpl in H; try discriminate; constructor.
+  - injection H as H _. symmetry; exact H.
+  - apply IH. injection H as _ H. exact H.
+Qed.
+
+Lemma maps_of_F2 {A B C} (f : A -> C) (g : B -> C) a b : Forall2 (fun x y => g y = f x) a b -> map g b = map f a.
+Proof. induction 1 as [|x y a b H _ IH]; simpl; [reflexivity|]. rewrite H, IH. reflexivity. Qed.
+
+Lemma F2_combine3 {A B C} (P : A -> B -> Prop) (Q : A -> C -> Prop) (R : B -> C -> Prop) a b c :
+  Forall2 P a b -> Forall2 Q a c -> Forall2 R b c ->
+  Forall2 (fun x yz => P x (fst yz) /\ Q x (snd yz) /\ R (fst yz) (snd yz)) a (combine b c).
+Proof.
+  intro H. revert c. induction H as [|x y a b Hp _ IH]; intros c Hq Hr; inversion Hq; subst; simpl;
+    constructor; inversion Hr; subst; auto.
+Qed.
+
+Lemma F2_true {A B} (a : list A) (b : list B) : length a = length b -> Forall2 (fun _ _ => True) a b.
+Proof. revert b. induction a; intros [|y b] H; simpl in H; try discriminate; constructor; auto. Qed.
+
+(* how the static data and the initial state of each underlying result relate to the input *)
+Definition good (i : input) (li : leaf_info) (sl : (bool * bool * list nat) * leaf) : Prop :=
+  fst (fst (fst sl)) = li_tfr li /\ snd (fst (fst sl)) = intended_ff i li /\ snd (fst sl) = li_path li
+  /\ fresh_for li (snd sl) /\ (leaf_ff (snd sl) = true -> snd (fst (fst sl)) = true).
+
+Lemma setup i : finding_F18 i = false ->
+  let n0 := init (stack i) (set_after i) in
+  Forall2 (good i) (leaf_infos (stack i)) (combine (statics (frame n0)) (lvs n0)).
+Proof.
+  intros Hf n0.
+  pose proof (init_descr (stack i) (set_after i)) as M. fold n0 in M.
+  assert (Pa : Forall2 (fun li pa => pa = li_path li) (leaf_infos (stack i)) (fpaths (frame n0))).
+  { rewrite <- (descr_paths n0 false). apply F2_map_r. eapply Forall2_impl; [|exact M]. intros li d [M1 _]. exact M1. }
+  assert (Un : Forall2 (fun li uw => fst uw = li_tfr li) (leaf_infos (stack i)) (finfo false false (frame n0))).
+  { apply (F2_transport (fun li (b : bool) => b = li_tfr li) _ fst _ _ _ (descr_unders n0 false false)).
+    eapply Forall2_impl; [|exact M]. intros li d [_ [M2 _]]. exact M2. }
+  assert (Wi : Forall2 (fun li uw => snd uw = intended_ff i li) (leaf_infos (stack i)) (finfo false false (frame n0))).
+  { apply F2_of_maps. unfold finding_F18 in Hf. apply negb_false_iff in Hf.
+    apply (proj1 (list_eqb_spec Bool.eqb bool_eqb_spec _ _)) in Hf.
+    rewrite <- Hf. unfold effective_ff. fold n0. apply will_stop_finfo. }
+  assert (Fr : Forall2 fresh_for (leaf_infos (stack i)) (lvs n0)).
+  { rewrite <- (descr_lvs n0 false). apply F2_map_r. eapply Forall2_impl; [|exact M]. intros li d [_ [_ M3]]. exact M3. }
+  pose proof (ff_implies_will n0 false false) as Fw.
+  assert (UW : Forall2 (fun li uw => fst uw = li_tfr li /\ snd uw = intended_ff i li)
+                       (leaf_infos (stack i)) (finfo false false (frame n0))).
+  { clear - Un Wi. induction Un; inversion Wi; subst; constructor; auto. }
+  pose proof (F2_combine3 _ _ (fun _ _ => True) _ _ _ UW Pa
+                (F2_true _ _ (statics_lengths n0))) as S1. fold (statics (frame n0)) in S1.
+  assert (SL : Forall2 (fun (s : bool * bool * list nat) l => leaf_ff l = true -> snd (fst s) = true)
+                       (statics (frame n0)) (lvs n0)).
+  { unfold statics. clear - Fw. pose proof (statics_lengths n0) as Hl.
+    revert Hl Fw. generalize (finfo false false (frame n0)) (fpaths (frame n0)) (lvs n0).
+    induction l as [|x l IH]; intros [|y m] L Hl Fw; simpl in Hl; try discriminate; inversion Fw; subst;
+      simpl; constructor; auto. }
+  pose proof (F2_combine3 _ _ _ _ _ _ S1 Fr SL) as S2.
+  eapply Forall2_impl; [|exact S2]. intros li [[[u w] pa] l]; simpl. intros [[[A B] [C _]] [D E]].
+  unfold good; simpl. auto.
+Qed.
+
+Lemma states_scan h : forall n, states n h = map (fun pre => fold_left do_op pre n) (prefixes h).
+Proof.
+  unfold prefixes. induction h as [|o r IH]; intro n; [reflexivity|].
+  cbn [states length seq map]. rewrite map_map. cbn [map firstn fold_left]. f_equal.
+  rewrite <- seq_shift, map_map. rewrite IH, map_map. reflexivity.
+Qed.
+
+Lemma forall2b_maps {A B C} (p : B -> C -> bool) (f : A -> B) (g : A -> C) l :
+  forall2b p (map f l) (map g l) = forallb (fun x => p (f x) (g x)) l.
+Proof. induction l as [|x r IH]; simpl; [reflexivity|]. rewrite IH. reflexivity. Qed.
+
+Lemma forall2b_map_r {A C} (p : A -> C -> bool) (g : A -> C) l :
+  forall2b p l (map g l) = forallb (fun x => p x (g x)) l.
+Proof. induction l as [|x r IH]; simpl; [reflexivity|]. rewrite IH. reflexivity. Qed.
+
+Lemma lbool_eqb_refl l : lbool_eqb l l = true.
+Proof. apply (proj2 (list_eqb_spec Bool.eqb bool_eqb_spec l l)). reflexivity. Qed.
+
+Lemma forall2b_F2 {A B} (p : A -> B -> bool) l m : Forall2 (fun a b => p a b = true) l m -> forall2b p l m = true.
+Proof. induction 1 as [|a b l m H _ IH]; simpl; [reflexivity|]. rewrite H, IH. reflexivity. Qed.
+
+(* the underlying results after the calls [pre] *)
+Lemma lvs_after i pre :
+  let n0 := init (stack i) (set_after i) in
+  lvs (fold_left do_op pre n0) = map (fun sl => traj (fst sl) (snd sl) pre) (combine (statics (frame n0)) (lvs n0)).
+Proof. intro n0. rewrite trajectory. reflexivity. Qed.
+
+Lemma forallb_forall_map {A B} (p : B -> bool) (f : A -> B) l : forallb p (map f l) = forallb (fun x => p (f x)) l.
+Proof. induction l as [|x r IH]; simpl; [reflexivity|]. rewrite IH. reflexivity. Qed.
+
+Lemma fresh_not_stopped li l : fresh_for li l -> leaf_stopped l = false.
+Proof. destruct l; simpl; intros [_ [_ H]]; exact H. Qed.
+
+(* C04_failfast / C04_stop_reaches, per underlying result *)
+Lemma leaf_stops_after i pre : finding_F18 i = false ->
+  leaf_stops (fold_left do_op pre (init (stack i) (set_after i)))
+  = map (want_leaf_stop i pre) (leaf_infos (stack i)).
+Proof.
+  intro Hf. rewrite leaf_stops_lvs, lvs_after, map_map. apply maps_of_F2.
+  eapply Forall2_impl; [|apply (setup i Hf)].
+  intros li [[[u w] pa] l]. unfold good; simpl. intros [Hu [Hi [Hp [Fr Hw]]]]. subst u w pa.
+  rewrite stopped_after; [reflexivity|eapply fresh_not_stopped; exact Fr|exact Hw].
+Qed.
+
+Lemma problems_nil l : match problems l with [] => true | _ => false end = negb (existsb is_problem l).
+Proof.
+  induction l as [|o r IH]; [reflexivity|]. simpl. unfold is_problem at 1.
+  destruct (problem o); simpl; [reflexivity|exact IH].
+Qed.
+
+Lemma wf_has_leaf a : wf_stack a = true -> leaf_infos a <> [].
+Proof.
+  induction a as [ff txt| |l IH|x IH|x IH|t x IH] using adapter_ind'; simpl; intro H; try discriminate;
+    try (intro E; apply map_eq_nil in E; revert E; apply IH; exact H).
+  destruct l as [|x r]; [discriminate|]. simpl in H. apply andb_true_iff in H as [H1 _].
+  inversion IH; subst. intro E. apply app_eq_nil in E as [E _]. apply map_eq_nil in E. revert E. apply H2. exact H1.
+Qed.
+
+Lemma forallb_const {A} (b : bool) (p : A -> bool) l : l <> [] -> Forall (fun x => p x = b) l -> forallb p l = b.
+Proof.
+  intros Hn H. induction H as [|x r Hx Hr IH]; [contradiction|]. simpl. rewrite Hx.
+  destruct r; [apply andb_true_r|]. rewrite IH by discriminate. destruct b; reflexivity.
+Qed.
+
+Lemma F2_Forall_r {A B} (P : B -> Prop) (Q : A -> B -> Prop) a b :
+  Forall2 Q a b -> (forall x y, Q x y -> P y) -> Forall P b.
+Proof. intros H K. induction H; constructor; eauto. Qed.
+
+(* C04_verdict *)
+Lemma was_ok_after i pre : wf i -> finding_F18 i = false -> has_e2s i = false ->
+  was_ok (fold_left do_op pre (init (stack i) (set_after i))) = want_ok pre.
+Proof.
+  intros Hwf Hf He. rewrite was_ok_lvs, lvs_after, forallb_forall_map.
+  pose proof (setup i Hf) as S. simpl in S.
+  apply forallb_const.
+  - intro E. apply (wf_has_leaf _ Hwf). rewrite E in S. inversion S. reflexivity.
+  - unfold has_e2s in He.
+    assert (Hall : Forall (fun li => li_e2s li = false) (leaf_infos (stack i))).
+    { apply Forall_forall. intros li Hin. destruct (li_e2s li) eqn:E; [|reflexivity].
+      assert (existsb li_e2s (leaf_infos (stack i)) = true) by (apply existsb_exists; eauto). congruence. }
+    clear He. induction S as [|li sl I SL G _ IH]; [constructor|]. inversion Hall; subst.
+    constructor; [|apply IH; assumption].
+    destruct sl as [[[u w] pa] l]. unfold good in G; simpl in G. destruct G as [-> [_ [_ [Fr _]]]]. simpl.
+    destruct l as [r0|e0]; simpl in Fr; [|destruct Fr as [Fr _]; congruence].
+    destruct Fr as [_ [Fc _]].
+    destruct (core_traj (li_tfr li, w, pa) pre r0) as [r' [Et Ec]]. rewrite Et. simpl in *.
+    rewrite tr_ok_core, Ec, Fc.
+    rewrite (c_ok_problems (li_tfr li) pre _ (core_inv_holds _ _ _)). unfold want_ok. apply problems_nil.
+Qed.
